@@ -74,3 +74,26 @@ Proof.
     unfold key_nonces, cts_of. cbn [flat_map]. rewrite Hb. rewrite Hc, Hiv. reflexivity. }
   exists (k, nonce_of iv 0). split; [exact (F _ _ _ _ _ _ K1 S1)|exact (F _ _ _ _ _ _ K2 S2)].
 Qed.
+
+(* ---- file transfer is a sequence of ordinary sends ----------------------------- *)
+From Cedar Require Import Model.File.
+
+Lemma send_msgs_as_sops ms : forall s s' e fs,
+  send_msgs s ms = (s', e, fs) -> exists ops es, run_sops s ops = (s', es, fs).
+Proof.
+  induction ms as [|m r IH]; intros s s' e fs H; cbn [send_msgs] in H.
+  - inversion H; subst. exists [], []. reflexivity.
+  - destruct (send_frame s m EndFlagComplete) as [s1 [f|e0]] eqn:Es.
+    + destruct (send_msgs s1 r) as [[s2 e2] fs2] eqn:E2. inversion H; subst.
+      destruct (IH _ _ _ _ E2) as [ops [es Hr]].
+      exists (OSend m :: ops), (0 :: es). cbn [run_sops run_sop]. rewrite Es, Hr. reflexivity.
+    + inversion H; subst. exists [OSend m], [1]. cbn [run_sops run_sop]. rewrite Es. reflexivity.
+Qed.
+
+Lemma file_nonce_unique s d s' e fs :
+  enc_ctr s <= CounterGuard -> put_file s d = (s', e, fs) ->
+  NoDup (key_nonces fs) /\ enc_ctr s <= enc_ctr s' /\ enc_ctr s' <= CounterGuard.
+Proof.
+  intros Hle Hp. unfold put_file in Hp. destruct (send_msgs_as_sops _ _ _ _ _ Hp) as [ops [es Hr]].
+  split; [eapply nonce_unique; eassumption|eapply counter_never_wraps; eassumption].
+Qed.
